@@ -1,5 +1,5 @@
 SPECIFICATION Spec
-CONSTANTS SqnArgs <- McSqn OvfArgs <- McOvf SetArgs <- McSetFull Starts <- All
+CONSTANTS SqnArgs <- FullSqn OvfArgs <- FullOvf SetArgs <- FullSet Starts <- All
 INVARIANTS TypeOK Composed SetCommutes
 PROPERTIES AddOneCarries AddOneIsSuccessor SetSQNKeepsOverflow SetOverflowKeepsSQN SetIsBoth
 CHECK_DEADLOCK FALSE
